@@ -23,7 +23,7 @@ class Proof:
         self.kind = kind; self.target = target; self.opts = opts
         self.harness = 'h_' + target if kind == 'enforce' else target
         self.results = []; self.status = None; self.seconds = 0.0; self.reason = ''
-        self.canary_ok = None; self.cmds = []; self.replaced = []; self.log = ''
+        self.canary_ok = None; self.cmds = []; self.replaced = []; self.log = ''; self.reach_bodies = []
     @property
     def bounded(self): return 'unwind' in self.opts
     @property
@@ -77,7 +77,9 @@ class Unit:
             if not cands:
                 raise Undecided('function %s not found in %s (renamed or removed?)' % (q, ' '.join(self.tus)))
             if sig:
-                cands = [f for f in cands if L.sig_suffix(f) == sig]
+                wantc = sig.endswith('__const')
+                if wantc: sig = sig[:-7]
+                cands = [f for f in cands if L.sig_suffix(f) == sig and (L.is_const_method(f) == wantc or len([g for g in cands if L.sig_suffix(g) == sig]) == 1)]
                 if not cands: raise Undecided('no overload %s of %s' % (sig, q))
             elif len(cands) > 1:
                 cands = [f for f in cands if any(c.get('kind') == 'CompoundStmt' for c in f.get('inner', []))]
@@ -139,14 +141,13 @@ class Unit:
             for lp in fi.loops:
                 mac = 'LOOP_%s_%d' % (cname, lp['ordinal'])
                 out.append('#ifndef %s\n#define %s __CPROVER_loop_invariant(1 == 1) /* default: no loop contract in the sidecar -> havoc abstraction */\n#endif\n' % (mac, mac))
-        for fname, lname, it, caps in L.find_ifs:
-            out.append('#ifndef LOOP_%s_0\n#define LOOP_%s_0 __CPROVER_loop_invariant(1 == 1)\n#endif\n' % (fname, fname))
         out += [s + '\n' for s in L.static_locals]
         lambdas = [fi for fi in L.fns.values() if fi.cname.startswith('lambda_')]
         for fi in lambdas: out.append(fi.text + '\n')
-        out.append(L.emit_find_ifs())
+        finds = [fi for fi in L.fns.values() if getattr(fi, 'is_find_if', False)]
+        for fi in finds: out.append(fi.text + '\n')
         for cname, fi in L.fns.items():
-            if fi in lambdas: continue
+            if fi in lambdas or fi in finds: continue
             out.append(fi.text + '\n')
         # harnesses for enforce proofs
         for p in self.proofs:
@@ -163,6 +164,20 @@ class Unit:
                    'external_callees': sorted(self.extern), 'literals': {k: v[1] for k, v in self.lits.items()}},
                   open(os.path.join(self.dir, 'lowering.json'), 'w'), indent=1)
         return text
+
+    def unannotated_loops(self, p):
+        """loops (of functions whose BODY is part of proof p) that have no loop contract in the sidecar: they are
+        abstracted by havoc (invariant 1==1); a failure downstream of one may be an artefact of that abstraction"""
+        side = self.part1 + self.part2
+        out = []
+        for c in [p.target] + list(p.reach_bodies):
+            fi = self.fninfos.get(c)
+            if not fi: continue
+            for lp in fi.loops:
+                mac = 'LOOP_%s_%d' % (c, lp['ordinal'])
+                if not re.search(r'#\s*define\s+%s\b' % re.escape(mac), side) and mac not in out:
+                    out.append(mac)
+        return out
 
     def harness_text(self, p, fi):
         m = re.match(r'^(.*?)\s*\b(\w+)\((.*)\)$', fi.proto, re.S)
@@ -192,8 +207,9 @@ class Unit:
             return 'UNDECIDED', 'no model or lowered body for callee(s): ' + ', '.join(sorted(set(undeclared))), [], log, 0.0
         # which contracts exist, which functions are reachable
         contracts, bodies = symbols(gb1)
-        reach = reachable(gb1, p.harness, contracts - {p.target})
-        replace = sorted(c for c in contracts if c in reach and c != p.target and c not in p.opts.get('inline', '').split(','))
+        inl = set(x for x in p.opts.get('inline', '').split(',') if x)
+        reach = reachable(gb1, p.harness, contracts - {p.target} - inl)
+        replace = sorted(c for c in contracts if c in reach and c != p.target and c not in inl)
         missing = sorted(f for f in reach if f not in bodies and f not in contracts and not f.startswith('__CPROVER') and f not in BUILTIN_OK)
         if missing:
             return 'UNDECIDED', 'callee(s) with neither body nor contract: ' + ', '.join(missing), [], log, 0.0
@@ -201,17 +217,20 @@ class Unit:
         if p.kind == 'enforce': gi += ['--enforce-contract', p.target]
         for c in replace: gi += ['--replace-call-with-contract', c]
         gi += ['--apply-loop-contracts', gb1, gb2]
-        if not canary: p.replaced = replace
+        if not canary:
+            p.replaced = replace
+            p.reach_bodies = sorted(f for f in reach if f in bodies and f not in replace)
         r = subprocess.run(gi, capture_output=True, text=True)
         log += '$ ' + ' '.join(gi) + '\n' + r.stdout[-4000:] + r.stderr[-4000:]
         if r.returncode != 0:
             return 'UNDECIDED', 'goto-instrument failed: ' + first_error(r.stderr + r.stdout), [], log, 0.0
-        solver = p.opts.get('solver', 'sat')
+        solver = p.opts.get('solver', 'cadical')
         cb = ['cbmc', gb2, '--object-bits', p.opts.get('objbits', '12'), '--bounds-check', '--pointer-check', '--signed-overflow-check',
               '--conversion-check', '--div-by-zero-check', '--undefined-shift-check', '--json-ui', '--verbosity', '4']
         if p.opts.get('unsigned-overflow') == '1': cb.append('--unsigned-overflow-check')
         if 'unwind' in p.opts: cb += ['--unwind', p.opts['unwind'], '--unwinding-assertions']
-        if solver == 'cvc5': cb.append('--cvc5')
+        if solver == 'cadical': cb += ['--sat-solver', 'cadical']
+        elif solver == 'cvc5': cb.append('--cvc5')
         elif solver == 'z3': cb.append('--z3')
         elif solver == 'kissat': cb += ['--external-sat-solver', 'kissat']
         if not canary: p.cmds = [' '.join(cc), ' '.join(gi), ' '.join(cb)]
